@@ -63,7 +63,7 @@ Step ==
             /\ Check(~e.st.failed, "C42", "producer-controller-failed-the-flow", 0, 0)
             /\ UNCHANGED <<conf, req, dconf, ends>>
        [] e.e = "fin" ->
-            /\ Check(e.done, "C42", "not-every-produced-message-confirmed", e.produced, NConf)
+            /\ Check(e.done \/ e.free, "C42", "not-every-produced-message-confirmed", e.produced, NConf)
             /\ Check(~e.done \/ (NConf = e.produced /\ Len(dconf) = e.produced), "C42", "confirmation-count", e.produced, Len(dconf))
             /\ UNCHANGED <<conf, req, dconf, ends>>
        [] OTHER -> UNCHANGED <<conf, req, dconf, ends>>
